@@ -11,6 +11,7 @@ package main
 //             empty envelope, "" media type, manifests with annotations / subject / layers /
 //             config absent, null, {} or [], zero descriptors as query, subject and fetch target
 //   many      twelve signatures of one subject
+//   squat     (squat.go) the manifest / envelope / config bytes of a push are in the layout before it
 //   syntax    rarely used legal JSON: duplicate members, keys in another letter case, numbers
 //             as strings / floats / exponents, non-string annotation values, leading white
 //             space, unknown members, null / [] documents, media types differing in case,
@@ -34,7 +35,7 @@ const (
 	nEmpties  = 24
 	nSyntax   = 24
 	nMany     = 4
-	nScripted = nRelist + nPosition + nEmpties + nSyntax + nMany
+	nScripted = nRelist + nPosition + nEmpties + nSyntax + nMany + nSquat
 )
 
 func (h *H) scripted(id int64) string {
@@ -53,8 +54,12 @@ func (h *H) scripted(id int64) string {
 		h.syntax(int(id) - nRelist - nPosition - nEmpties)
 		return "scripted:syntax"
 	}
-	h.many(int(id) - nRelist - nPosition - nEmpties - nSyntax)
-	return "scripted:many"
+	if id < nRelist+nPosition+nEmpties+nSyntax+nMany {
+		h.many(int(id) - nRelist - nPosition - nEmpties - nSyntax)
+		return "scripted:many"
+	}
+	h.squat(int(id) - nRelist - nPosition - nEmpties - nSyntax - nMany)
+	return "scripted:squat"
 }
 
 // many: twelve signatures of ONE subject (the listing grows to its largest size), foreign
